@@ -218,15 +218,32 @@ def hyp_settings(max_examples, shrink=False, **kw):
     )
 
 
-def hyp_run(strategy, body, n, seed_value):
-    """Run body(value) on n generated values; body records, never raises for property failures."""
+def hyp_run(strategy, body, n, seed_value, stats=None):
+    """Run body(value) on n generated values; body records, never raises for property failures.
+
+    An exception escaping the body that is not a HarnessError is recorded (when `stats` is given) as a failure of its
+    own kind for that case instead of aborting the whole run: every check is quiet on the unchanged tree, so on a
+    changed tree such an exception is the library misbehaving in a way the body did not anticipate (and the replay
+    file lets anyone confirm it), while everything else keeps being explored."""
+    import traceback as _tb
+
     from hypothesis import given, seed
 
     @seed(seed_value)
     @hyp_settings(n)
     @given(strategy)
     def _t(v):
-        body(v)
+        if stats is None:
+            body(v)
+            return
+        try:
+            body(v)
+        except HarnessError:
+            raise
+        except Exception as e:
+            frames = _tb.extract_tb(e.__traceback__)
+            where = next((f"{os.path.basename(f.filename)}:{f.name}" for f in reversed(frames) if "/pbt/" in f.filename), "?")
+            stats.fail(f"unexpected-exception/{type(e).__name__}/{where}", v, "".join(_tb.format_exception_only(type(e), e))[-500:] + " at " + " <- ".join(f"{os.path.basename(f.filename)}:{f.lineno}" for f in list(reversed(frames))[:6]))
 
     _t()
 
@@ -350,7 +367,12 @@ def finish(ctx: Ctx, mod) -> int:
 
 def replay(mod, path) -> int:
     data = json.loads(Path(path).read_text())
-    res = mod.check_case(data["case"])
+    try:
+        res = mod.check_case(data["case"])
+    except HarnessError:
+        raise
+    except Exception as e:  # same convention as hyp_run: the case makes the library misbehave in an unanticipated way
+        res = [(f"unexpected-exception/{type(e).__name__}", repr(e))]
     okeys = open_keys(mod.PID)
     bad = [(k, d) for k, d in res if k not in okeys]
     for k, d in res:
